@@ -319,6 +319,36 @@ func (w *asWorld) l2Block(kind int) (string, error) {
 	return fmt.Sprintf("L2block(%d: %db %dc)", num, nb, nc), nil
 }
 
+// l2Reorg drops the L2 blocks >= b (store and reference): the chain will continue differently
+func (w *asWorld) l2Reorg(b uint64) error {
+	if err := w.l2Store.Reorg(b); err != nil {
+		return err
+	}
+	var keep []asEvent
+	w.l2Front = ref.Frontier{}
+	w.l2Roots = nil
+	for _, e := range w.l2Events {
+		if e.Block >= b {
+			if e.Claim != nil {
+				key := fmt.Sprintf("o%d", e.ClaimDeposit)
+				if e.ClaimMainnet {
+					key = fmt.Sprintf("m%d", e.ClaimDeposit)
+				}
+				delete(w.l2Claimed, key)
+			}
+			continue
+		}
+		keep = append(keep, e)
+		if e.Bridge != nil {
+			w.l2Front.Add(world.BridgeLeafOf(e.Bridge))
+			w.l2Roots = append(w.l2Roots, w.l2Front.Root())
+		}
+	}
+	w.l2Events = keep
+	w.l2Next = b
+	return nil
+}
+
 // eventsIn returns the world's bridges and claims of the L2 blocks [from, to] in chain order
 func (w *asWorld) eventsIn(from, to uint64) (bridges []asEvent, claims []asEvent) {
 	for _, e := range w.l2Events {
